@@ -1,11 +1,73 @@
-(* C03 -- parameters are identified by name everywhere, never by position of appearance.
-   (theorems are added as Proofs/IdMgrP.v lands) *)
-From BV Require Import Model.Expr Model.IdMgr.
+(* C03 -- parameters are identified by name everywhere, never by position of appearance. *)
+From Coq Require Import Reals Permutation Sorting.Sorted.
+From BV Require Import Model.Expr Model.IdMgr Model.EvalX Proofs.IdMgrP.
 Open Scope string_scope.
 
-(* sorted(dict) on the names met in any order: canonical list (non-vacuity example) *)
-Theorem T03_sorted_example :
+(* non-vacuity: sorted(dict) on names met in two different orders *)
+Example T03_sorted_example :
   sorted_names ["B_z"; "a9"; "B_10"; "b_2"; "a9"] = ["B_10"; "B_z"; "a9"; "b_2"]
   /\ sorted_names ["b_2"; "a9"; "B_10"; "B_z"] = ["B_10"; "B_z"; "a9"; "b_2"].
 Proof. vm_compute. split; reflexivity. Qed.
-Print Assumptions T03_sorted_example.
+
+(* T03a. The reported list of names of a class is strictly sorted, without duplicates, and
+   contains exactly the names used; the numbering is a bijection names <-> [0,n). *)
+Theorem T03a_numbering_sorted : forall l : list string,
+  StronglySorted slt (sorted_names l) /\ NoDup (sorted_names l) /\ (forall x, In x (sorted_names l) <-> In x l).
+Proof. intro l. split; [apply sorted_names_sorted|split; [apply sorted_names_NoDup|intro x; apply sorted_names_In]]. Qed.
+Print Assumptions T03a_numbering_sorted.
+
+Theorem T03a_numbering_bijection : forall (x : string) (l : list string) (i : nat),
+  NoDup l -> index_of x l = Some (Z.of_nat i) <-> nth_error l i = Some x.
+Proof. exact index_of_nth_error. Qed.
+Print Assumptions T03a_numbering_bijection.
+
+(* T03d. The id table does not depend on the order in which parameters are met / formulas are given. *)
+Theorem T03d_order_of_appearance_irrelevant : forall l l' : list string,
+  (forall x : string, In x l <-> In x l') -> sorted_names l = sorted_names l'.
+Proof. exact sorted_names_canonical. Qed.
+Print Assumptions T03d_order_of_appearance_irrelevant.
+
+Theorem T03d_formula_order_irrelevant : forall (fs fs' : list expr) (cols : list string),
+  Permutation fs fs' -> prepare fs cols = prepare fs' cols.
+Proof. exact prepare_perm. Qed.
+Print Assumptions T03d_formula_order_irrelevant.
+
+(* T03c. Renaming all parameters through any map rho: the numbering is transported, and every
+   value handed over by position stays attached to its (renamed) name. *)
+Theorem T03c_rename_numbering : forall (rho : string -> string) (k : ekind) (fs : list expr),
+  beta_kind k -> collect k (map (rename rho) fs) = sorted_names (map rho (collect k fs)).
+Proof. exact collect_rename. Qed.
+Print Assumptions T03c_rename_numbering.
+
+Theorem T03c_values_follow_names :
+  forall (rho : string -> string) (fs : list expr) (cols : list string) (t t' : idtable)
+         (vals vals' : string -> option R),
+    prepare fs cols = Some t -> prepare (map (rename rho) fs) cols = Some t' ->
+    (forall n : string, vals' (rho n) = vals n) ->
+    t_rv t' = t_rv t /\ t_draws t' = t_draws t /\ t_vars t' = t_vars t /\
+    (forall (n : string) (i : Z), index_of n (t_free t) = Some i ->
+       exists j : Z, index_of (rho n) (t_free t') = Some j /\
+         nth_error (vector vals' (t_free t')) (Z.to_nat j) = nth_error (vector vals (t_free t)) (Z.to_nat i)) /\
+    (forall (n : string) (i : Z), index_of n (t_fixed t) = Some i ->
+       exists j : Z, index_of (rho n) (t_fixed t') = Some j /\
+         nth_error (vector vals' (t_fixed t')) (Z.to_nat j) = nth_error (vector vals (t_fixed t)) (Z.to_nat i)).
+Proof. intros; eapply prepare_rename_follows; eassumption. Qed.
+Print Assumptions T03c_values_follow_names.
+
+(* ... and the value of every formula (hence every log likelihood) is unchanged. *)
+Theorem T03c_value_invariant_under_renaming :
+  forall (Phi : R -> R) (rho : string -> string) (e : expr) (en en' : env),
+    env_ren rho en en' -> evalX Phi (rename rho e) en' = evalX Phi e en.
+Proof. exact evalX_rename. Qed.
+Print Assumptions T03c_value_invariant_under_renaming.
+
+(* T03h. A name used for two different kinds of element is refused -- and nothing else is. *)
+Theorem T03h_duplicate_kinds_refused : forall (fs : list expr) (cols : list string),
+  prepare fs cols = None <->
+  (exists (n : string) (k1 k2 : ekind), k1 <> k2 /\ In n (raw_class fs cols k1) /\ In n (raw_class fs cols k2))
+  \/ ~ NoDup cols.
+Proof. exact prepare_refuses_iff. Qed.
+Print Assumptions T03h_duplicate_kinds_refused.
+
+Example T03h_example : prepare [EBin Plus (EBeta "x1" false) (EVar "x1")] ["x1"] = None.
+Proof. vm_compute. reflexivity. Qed.
